@@ -5,6 +5,7 @@ contexts) with the vectorised abstract interpreter and compares it cell by cell 
 The other rules are guard/flow rules over the close-payload, UTF-8 and failure-policy code.
 """
 import ast
+import re
 import struct
 
 import numpy as np
@@ -647,7 +648,13 @@ def rule_utf8_policy(ctx):
     ctx.ob("validation enabled by utf8validateIncomingCurrentMessage", ("truth", "self.utf8validateIncomingCurrentMessage", None, True) in mf.at(vn),
            "validate() not under the per-message validation flag", ofd.loc(vn.ast))
     # on the validating path the delivery is preceded by validate + verdict test
-    tests = [n for n in g.stmt_nodes() if n.kind == "test" and "self.utf8validateLast" in ast.unparse(n.ast) and not isinstance(n.ast, ast.Call)]
+    # the verdict may also be read through a local bound in the same statement (`self.utf8validateLast = verdict = ...validate(payload)`)
+    stores_ = {}
+    for y_ in walk_no_defs(ofd.node):
+        if isinstance(y_, ast.Name) and isinstance(y_.ctx, ast.Store):
+            stores_[y_.id] = stores_.get(y_.id, 0) + 1
+    VERDICT = ["self.utf8validateLast"] + [t_.id for t_ in vn.ast.targets if isinstance(t_, ast.Name) and stores_.get(t_.id) == 1]
+    tests = [n for n in g.stmt_nodes() if n.kind == "test" and any(re.search(r"(?<![\w.])" + re.escape(v_) + r"\b", ast.unparse(n.ast)) for v_ in VERDICT) and not isinstance(n.ast, ast.Call)]
     ctx.require(len(tests) == 1, "onFrameData: test of the validator verdict not found")
     t = tests[0]
     # mid-message a chunk may end inside a code point: the chunk is refused iff the validator says invalid (flag 0), whatever flag 1 says
@@ -656,7 +663,10 @@ def rule_utf8_policy(ctx):
     try:
         for a_ in (False, True):
             for b_ in (False, True):
-                table[(a_, b_)] = bool(Tiny({"self.utf8validateLast[0]": a_, "self.utf8validateLast[1]": b_}).ev(t.ast))
+                env_ = {}
+                for v_ in VERDICT:
+                    env_[f"{v_}[0]"], env_[f"{v_}[1]"] = a_, b_
+                table[(a_, b_)] = bool(Tiny(env_).ev(t.ast))
         okt = all(table[(a_, b_)] == (not a_) for a_, b_ in table)
         why = "" if okt else "refused for (valid, ends on code point) in " + str(sorted(k for k, v in table.items() if v))
     except AnalysisError as e:
